@@ -519,7 +519,7 @@ def clause_f(c: Check):
     for modp in (SV, DV):
         f = ix.func(modp + ':all_of')
         pn = f.positional_params()[0].arg
-        rets = [n.value for n in walk_own(f.node) if isinstance(n, ast.Return)]
+        rets = util.returned_values(f)
         kinds = []
         for r in rets:
             if isinstance(r, ast.Subscript) and isinstance(r.value, ast.Name) and r.value.id == pn:
@@ -677,7 +677,7 @@ def clause_g(c: Check):
         # ---- Parser of the package wraps the parts parser and builds this class
         ps = ix.cls(modname + ':Parser')
         pm = ix.class_member(ps, 'parse')
-        rets = [n.value for n in walk_own(pm.node) if isinstance(n, ast.Return)]
+        rets = util.returned_values(pm)
         ok = len(rets) == 1 and isinstance(rets[0], ast.Call) and ix.callee(pm.module, pm, rets[0]) == cls
         c.expect(ok, 'C03-g', pkg + '/Parser.parse', 'Parser.parse does not build %s' % cls_name, pm.loc())
 
